@@ -60,6 +60,12 @@ def check_closers_serialised(ctx: Ctx, oid: str) -> None:
                 continue
             n += 1
             ok = RECVLOCK in held
+            if not ok:
+                # the callee may take the lock itself around everything it does (lock moved from the only caller into the callee)
+                cal = repo.flat(callee)
+                work_ = [c for c in repo.calls_in(cal) if callee_attr(c) not in ("trace", "_trace", "log", "acquire", "release")]
+                ok = bool(work_) and all(RECVLOCK in lexical_locks(repo, cal, c) for c in work_) and \
+                    all(RECVLOCK in lexical_locks(repo, cal, x) for x in repo.own_nodes(cal) if isinstance(x, ast.Attribute) and isinstance(x.ctx, ast.Store))
             ob.site(caller, call, f"receiver-thread path into {callee.short}", held=sorted(held))
             if not ok:
                 ob.violation(caller, call, f"the receiver thread enters {callee.short} without holding _receivelock: the close can interleave with setcallback's queue->callback "
